@@ -297,7 +297,10 @@ def run_check(prop, a, bdir, seed, t0):
                 # the input space of f is split by an exhaustive case distinction in its contract (NITRO_CASE_<f> selects the case);
                 # every case is a separate job over the same text, f is proved when all of them are.  A case may name, per callee,
                 # the (separately enforced) contract that its call sites satisfy in this case.
-                for ci, (cname, alts) in enumerate(cases):
+                for ci, case in enumerate(cases):
+                    cname, alts = case[0], case[1]
+                    if len(case) > 2 and prop not in case[2]:
+                        continue    # this case of the distinction carries nothing of the property
                     rep_c = [r + "/" + r + "_" + alts[r] if r in alts else r for r in rep]
                     jc = driver.Job(uname, f.name + "+" + cname, "h_" + f.name, f.name, rep_c, [gen_c, har_c], defs + ["NITRO_CASE_%s=%d" % (f.name, ci)],
                                     rec=f.rec, props=f.props, unwind=f.unwind)
